@@ -121,6 +121,14 @@ func (f *Frame) call(in ssa.Instruction, cc *ssa.CallCommon, st *State) []Term {
 		if v, ok := st.Ghost[key]; ok {
 			return []Term{v}
 		}
+		if st.GhostUnknown {
+			v := c.fresh("ghostunk", SBool)
+			if st.Ghost == nil {
+				st.Ghost = map[string]Term{}
+			}
+			st.Ghost[key] = v
+			return []Term{v}
+		}
 		return []Term{TFalse}
 	case "__canUnread":
 		g := c.heapGet(st, ghostCanUnread, ArrSort(SInt, SBool))
